@@ -21,6 +21,10 @@ import (
 // calling goroutine, end it (runtime.Goexit) or return an error to inject.
 var Hook func(op, path, path2 string) error
 
+// TornWrites: WriteFile offers its intermediate states (file truncated; file written in part)
+// to the hook as extra points "write-body". Set by the crash-point enumerations only.
+var TornWrites bool
+
 // After, when set, is called after every mutating operation that was executed.
 var After func(op, path, path2 string)
 
@@ -171,6 +175,23 @@ func WriteFile(name string, data []byte, perm FileMode) error {
 		return err
 	}
 	_, statErr := orig.Lstat(name)
+	if TornWrites && Hook != nil {
+		// WriteFile is open(O_TRUNC) + write + close: a process that dies in between leaves the
+		// file empty, or (a large buffer, a full disk, a power failure) written in part. Both
+		// states are offered to the crash enumeration as points of their own.
+		if err := orig.WriteFile(name, nil, perm); err == nil {
+			stampNow(name)
+			if err := before("write-body", name, ""); err != nil {
+				return err
+			}
+			if len(data) > 1 {
+				_ = orig.WriteFile(name, data[:len(data)/2], perm)
+				if err := before("write-body", name, ""); err != nil {
+					return err
+				}
+			}
+		}
+	}
 	err := orig.WriteFile(name, data, perm)
 	if err == nil {
 		openTimes.Delete(name)
